@@ -126,6 +126,22 @@ CLAIMED = {
         "technique": "Lean 4 proof (invariants of a linked property network, generated definition tables) + "
                      "history-based correspondence on real clients",
     },
+    "C16": {
+        "text": "Lean theorems over the dispatch model and the GENERATED tables (plugin domains, hook call sites of "
+                "send/process_reply/DocumentReader/Client.__init__ in source order): the call sites are in the "
+                "documented stage order; a stage calls exactly the plugins of the matching kind that override the "
+                "hook, each once, in registration order (for every plugin list); without a reply only marshalled and "
+                "sending run; the reply hooks reached are always a prefix of received, parsed, unmarshalled, depending "
+                "on the status only through its class; fault / error status / retxml / 202-204 never reach "
+                "unmarshalled. Tied to the code by running generated plugin lists (every single-hook and full plugin "
+                "in every order up to length 2 - 3 thorough - plus random lists) on real clients with a recording "
+                "transport: hook log (incl. URLs of document hooks, cold and warm document cache), bytes at the "
+                "transport, envelope attributes, returned value and exception propagation compared with the model.",
+        "design_ref": "DESIGN.md section 6 C16",
+        "note": "stage data flow (each stage consumes what the previous hooks left) is checked on the implementation "
+                "through order-revealing edits; it is not a Lean theorem (the model covers which hooks run, in which order).",
+        "technique": "Lean 4 proof (list invariants over every plugin list, generated call-site tables) + differential correspondence",
+    },
 }
 
 NOT_YET = "check not built yet in this round (design in DESIGN.md section 6); not claimed"
